@@ -292,6 +292,10 @@ bool dtoa_scientific(double val, char decimal_point, Result& result)
 {
     if (val == 0)
     {
+        if (std::signbit(val))
+        {
+            result.push_back('-');
+        }
         result.push_back('0');
         result.push_back('.');
         result.push_back('0');
@@ -329,6 +333,10 @@ bool dtoa_general(double val, char decimal_point, Result& result, std::false_typ
 {
     if (val == 0)
     {
+        if (std::signbit(val))
+        {
+            result.push_back('-');
+        }
         result.push_back('0');
         result.push_back('.');
         result.push_back('0');
@@ -366,6 +374,10 @@ bool dtoa_general(double v, char decimal_point, Result& result, std::true_type)
 {
     if (v == 0)
     {
+        if (std::signbit(v))
+        {
+            result.push_back('-');
+        }
         result.push_back('0');
         result.push_back('.');
         result.push_back('0');
@@ -400,6 +412,10 @@ bool dtoa_fixed(double val, char decimal_point, Result& result, std::false_type)
 {
     if (val == 0)
     {
+        if (std::signbit(val))
+        {
+            result.push_back('-');
+        }
         result.push_back('0');
         result.push_back('.');
         result.push_back('0');
@@ -437,6 +453,10 @@ bool dtoa_fixed(double v, char decimal_point, Result& result, std::true_type)
 {
     if (v == 0)
     {
+        if (std::signbit(v))
+        {
+            result.push_back('-');
+        }
         result.push_back('0');
         result.push_back('.');
         result.push_back('0');
